@@ -27,9 +27,9 @@ type Gen struct {
 	PathItemRefs bool
 
 	nonBodySchema bool
-	defNames   []string
-	paramNames []string
-	respNames  []string
+	defNames      []string
+	paramNames    []string
+	respNames     []string
 }
 
 func NewGen(seed, stream uint64) *Gen {
@@ -56,9 +56,9 @@ var alphabetNames = []string{
 
 var simpleNames = []string{"pet", "Pet", "owner", "tag", "item", "user", "order", "thing", "id", "name", "value", "n1"}
 
-func (g *Gen) hit(f string)           { g.feat[f]++ }
-func (g *Gen) p(x float64) bool       { return g.r.Float64() < x }
-func (g *Gen) n(k int) int            { return g.r.IntN(k) }
+func (g *Gen) hit(f string)            { g.feat[f]++ }
+func (g *Gen) p(x float64) bool        { return g.r.Float64() < x }
+func (g *Gen) n(k int) int             { return g.r.IntN(k) }
 func (g *Gen) pick(xs []string) string { return xs[g.r.IntN(len(xs))] }
 
 func (g *Gen) name() string {
@@ -539,9 +539,9 @@ var allMethods = []string{"get", "put", "post", "delete", "options", "head", "pa
 
 type DocOpts struct {
 	NonBodySchema bool // non-body parameters may carry a schema (loadable, invalid swagger; outside the domain of C11-C13)
-	NoPathsProb float64
-	DupIDs      bool
-	MinimalTop  bool // no info etc (not needed for analysis)
+	NoPathsProb   float64
+	DupIDs        bool
+	MinimalTop    bool // no info etc (not needed for analysis)
 }
 
 // Doc generates a whole document.
